@@ -116,6 +116,25 @@ def _fields_equal(k1, t1, shape1, k2, t2, shape2):
     return z3.And(*conds)
 
 
+def _comparison_history():
+    """earlier comparisons a process may have made: pairs of distinct objects of every kind, base kinds first.
+    Equality of two mazes must not depend on which other mazes were compared before."""
+    cl = np.zeros((2, 2, 2), dtype=np.bool_)
+    cl[1, 0, 0] = True
+    cl2 = cl.copy()
+    cl2[0, 0, 0] = True
+    pairs = [(_cls("LatticeMaze")(connection_list=cl), _cls("LatticeMaze")(connection_list=cl2)),
+             (_cls("LatticeMaze")(connection_list=cl), _cls("LatticeMaze")(connection_list=cl.copy())),
+             (_cls("TargetedLatticeMaze")(connection_list=cl, start_pos=(0, 0), end_pos=(0, 1)),
+              _cls("TargetedLatticeMaze")(connection_list=cl.copy(), start_pos=(0, 0), end_pos=(0, 1)))]
+    for a, b in pairs:
+        try:
+            a == b
+            a != b
+        except Exception:
+            pass
+
+
 def _run_eq(job):
     k1, k2 = job["k1"], job["k2"]
     (r1, c1), (r2, c2) = job["shape1"], job["shape2"]
@@ -129,6 +148,7 @@ def _run_eq(job):
             m2.__dict__["generation_meta"] = dict(func_name="y", other=1)
         exp = _fields_equal(k1, t1, (r1, c1), k2, t2, (r2, c2))
         obs = []
+        _comparison_history()
         try:
             eq = m1 == m2
             ne = m1 != m2
@@ -187,6 +207,7 @@ def _replay_eq(job, inputs, notes):
         m1.__dict__["generation_meta"] = dict(func_name="x")
         m2.__dict__["generation_meta"] = dict(func_name="y", other=1)
     tag = f"{job['k1']}{tuple(job['shape1'])} vs {job['k2']}{tuple(job['shape2'])}"
+    _comparison_history()
     try:
         eq, ne = m1 == m2, m1 != m2
     except Inconclusive:
